@@ -211,7 +211,9 @@ func (m *Manager) AddBinding(mac net.HardwareAddr, ipv4 net.IP) error {
 	if ipv4 != nil {
 		ip4 := ipv4.To4()
 		if ip4 != nil {
-			binding.IPv4Addr = binary.BigEndian.Uint32(ip4)
+			// The TC program compares this field with ip->saddr, i.e. with the
+			// address bytes in network order as they sit in memory
+			binding.IPv4Addr = binary.NativeEndian.Uint32(ip4)
 			binding.IPv4Valid = 1
 		}
 	}
@@ -320,7 +322,7 @@ func (m *Manager) AddAllowedRange(network *net.IPNet) error {
 
 	key := lpmKey{
 		Prefixlen: uint32(ones),
-		IP:        binary.BigEndian.Uint32(ip4),
+		IP:        binary.NativeEndian.Uint32(ip4), // address bytes in network order in memory (LPM matches byte-wise)
 	}
 
 	var value uint8 = 1
